@@ -84,20 +84,25 @@ func (s *Sched) predKind(f *ssa.Function) string {
 		return false
 	}
 	switch {
-	case reads("canceled"):
+	case reads(s.e.schedFields().Canceled):
 		return "canceled"
-	case reads("lastError"):
+	case reads(s.e.schedFields().LastError):
 		return "error"
 	}
-	if len(ir.Loops(f)) > 0 {
-		// compares node statuses with the finished constant
+	// a walk over the nodes (a loop, or slices.ContainsFunc / IndexFunc with a
+	// predicate closure), possibly behind a forwarder, comparing statuses with the
+	// finished constant
+	w, _ := s.followForwarders(f)
+	if len(ir.Loops(w)) > 0 || s.quantifierCall(w) != nil {
 		succ := s.val("NodeStatusSuccess")
-		for _, b := range f.Blocks {
-			for _, in := range b.Instrs {
-				if bo, ok := in.(*ssa.BinOp); ok {
-					for _, side := range []ssa.Value{bo.X, bo.Y} {
-						if k, isK := ir.ConstInt(side); isK && k == succ && strings.HasSuffix(ir.NamedType(side.Type()), ".NodeStatus") {
-							return "succeed"
+		for _, g := range ir.WithClosures(w) {
+			for _, b := range g.Blocks {
+				for _, in := range b.Instrs {
+					if bo, ok := in.(*ssa.BinOp); ok {
+						for _, side := range []ssa.Value{bo.X, bo.Y} {
+							if k, isK := ir.ConstInt(side); isK && k == succ && strings.HasSuffix(ir.NamedType(side.Type()), ".NodeStatus") {
+								return "succeed"
+							}
 						}
 					}
 				}
@@ -105,6 +110,80 @@ func (s *Sched) predKind(f *ssa.Function) string {
 		}
 	}
 	return ""
+}
+
+// followForwarders: f, or the function of the package it merely hands the
+// answer of on (`func (sc) isSucceed(g) bool { return g.allSucceeded() }`),
+// with the polarity of the forwarding.
+func (s *Sched) followForwarders(f *ssa.Function) (*ssa.Function, bool) {
+	neg := false
+	for d := 0; d < 4; d++ {
+		if f == nil || f.Blocks == nil {
+			return f, neg
+		}
+		// straight-line code with a single return (a deferred unlock adds an
+		// unreachable recover block)
+		var rt *ssa.Return
+		straight := true
+		for _, b := range f.Blocks {
+			if !s.e.Facts(f).Reachable(b) {
+				continue
+			}
+			switch x := b.Instrs[len(b.Instrs)-1].(type) {
+			case *ssa.Return:
+				if rt != nil {
+					straight = false
+				}
+				rt = x
+			case *ssa.If:
+				straight = false
+			}
+		}
+		if !straight || rt == nil || len(rt.Results) != 1 {
+			return f, neg
+		}
+		v := ir.Resolve(rt.Results[0])
+		n := false
+		for {
+			if u, isU := v.(*ssa.UnOp); isU && u.Op == token.NOT {
+				v, n = ir.Resolve(u.X), !n
+				continue
+			}
+			break
+		}
+		c, isC := v.(*ssa.Call)
+		if !isC || c.Call.StaticCallee() == nil || !s.e.P.Funcs[c.Call.StaticCallee()] || c.Call.StaticCallee().Blocks == nil {
+			return f, neg
+		}
+		f, neg = c.Call.StaticCallee(), neg != n
+	}
+	return f, neg
+}
+
+// quantifierCall: the call of slices.ContainsFunc / slices.IndexFunc with a
+// predicate closure in f, if f answers from it.
+func (s *Sched) quantifierCall(f *ssa.Function) *ssa.Call {
+	if f == nil {
+		return nil
+	}
+	for _, b := range f.Blocks {
+		for _, in := range b.Instrs {
+			c, ok := in.(*ssa.Call)
+			if !ok {
+				continue
+			}
+			n := ir.CalleeName(&c.Call)
+			if (strings.HasPrefix(n, "slices.ContainsFunc") || strings.HasPrefix(n, "slices.IndexFunc")) && len(c.Call.Args) == 2 {
+				if _, isMC := ir.Resolve(c.Call.Args[1]).(*ssa.MakeClosure); isMC {
+					return c
+				}
+				if _, isFn := ir.Resolve(c.Call.Args[1]).(*ssa.Function); isFn {
+					return c
+				}
+			}
+		}
+	}
+	return nil
 }
 
 func c04StatusTable(e *Env, s *Sched) {
@@ -204,7 +283,7 @@ func c04StatusTable(e *Env, s *Sched) {
 						}
 					}
 					n := ir.Normalize(ir.Lit{Cond: v, Pol: true})
-					if n.Kind == "cmp" && n.Op == token.NEQ && ir.IsNilConst(n.Y) && e.IsFieldRead(n.X, nil, "lastError") {
+					if n.Kind == "cmp" && n.Op == token.NEQ && ir.IsNilConst(n.Y) && e.IsFieldRead(n.X, nil, e.schedFields().LastError) {
 						ok = true
 					}
 				}
@@ -231,16 +310,87 @@ func c04SucceedTable(e *Env, s *Sched) {
 		r.Unknown("Status(): the all-nodes-succeeded predicate", "-", "Status() consults no function that walks the nodes comparing their status with finished")
 		return
 	}
+	isElemStatus := func(v ssa.Value) bool {
+		p, ok := e.C.PathOf(v)
+		return ok && p.Suffix("State.Status")
+	}
+	// the predicate may hand on the answer of a graph method, and the walk may be
+	// written with slices.ContainsFunc and a predicate closure
+	walkFn, neg := s.followForwarders(fn)
+	if qc := s.quantifierCall(walkFn); qc != nil && len(ir.Loops(walkFn)) == 0 {
+		// answer = [!] ContainsFunc(nodes, p): "all nodes are fine" is `!Contains(nodes, notFine)`
+		var pred *ssa.Function
+		switch x := ir.Resolve(qc.Call.Args[1]).(type) {
+		case *ssa.MakeClosure:
+			pred, _ = x.Fn.(*ssa.Function)
+		case *ssa.Function:
+			pred = x
+		}
+		isContains := strings.HasPrefix(ir.CalleeName(&qc.Call), "slices.ContainsFunc")
+		// the function's answer in terms of the call
+		answerNeg := neg
+		okShape := false
+		for _, b := range walkFn.Blocks {
+			if rt, isR := b.Instrs[len(b.Instrs)-1].(*ssa.Return); isR && len(rt.Results) == 1 {
+				v := ir.Resolve(rt.Results[0])
+				for {
+					if u, isU := v.(*ssa.UnOp); isU && u.Op == token.NOT {
+						v, answerNeg = ir.Resolve(u.X), !answerNeg
+						continue
+					}
+					break
+				}
+				if v == ssa.Value(qc) {
+					okShape = true
+				}
+			}
+		}
+		if pred == nil || !isContains || !okShape || !answerNeg {
+			r.Unknown("isSucceed: the walk over the nodes", e.InstrPos(qc), "answers from a slices search in a form that is not `!ContainsFunc(nodes, notFinished)`")
+			return
+		}
+		allNodes := false
+		if p, okp := e.C.PathOf(qc.Call.Args[0]); okp {
+			for _, an := range e.graphRoles().AllNodes {
+				if p.Suffix(an) {
+					allNodes = true
+				}
+			}
+		}
+		r.Check(allNodes, "isSucceed: result true only via loop exhaustion", e.InstrPos(qc), "the search does not cover all nodes of the graph")
+		// every way the predicate says "not a counter-example" has the node finished or skipped
+		alts, okA := e.boolHelperReturns(pred, false)
+		if !okA {
+			r.Unknown("isSucceed: the predicate of the search", e.Pos(pred.Pos()), "not a boolean function")
+			return
+		}
+		set := ir.EnumSet{}
+		for _, a := range alts {
+			for v := range ir.Restrict(a, isElemStatus, s.NS) {
+				set[v] = true
+			}
+		}
+		ok := len(set) > 0
+		for v := range set {
+			if n := s.name(v); n != "NodeStatusSuccess" && n != "NodeStatusSkipped" {
+				ok = false
+			}
+		}
+		r.Check(ok, "isSucceed: next node only when this one ∈ {"+strings.Join(set.Names(s.NS), ",")+"}", e.Pos(pred.Pos()),
+			"isSucceed moves on to the next node although this one is neither finished nor skipped")
+		return
+	}
+	if neg {
+		r.Unknown("isSucceed: forwarded with a negation", e.Pos(fn.Pos()), "shape not understood")
+		return
+	}
+	fn = walkFn
 	loops := ir.Loops(fn)
 	if len(loops) != 1 {
 		r.Unknown("isSucceed: one loop over the nodes", e.Pos(fn.Pos()), sprintf("found %d loops", len(loops)))
 		return
 	}
 	l := loops[0]
-	isElemStatus := func(v ssa.Value) bool {
-		p, ok := e.C.PathOf(v)
-		return ok && p.Suffix("State.Status")
-	}
 	// back edges: node must be Success or Skipped
 	for k, p := range l.Header.Preds {
 		if !l.Blocks[p] {
@@ -316,7 +466,7 @@ func c04ErrorPairing(e *Env, s *Sched) {
 	r.Rule("C04.error-pairing", "MPT", "status:=Error paired with a lastError write", 3)
 	w := s.Worker
 	var lastErrStores []ssa.Instruction
-	for _, ev := range e.C.FieldStores(w, "lastError") {
+	for _, ev := range e.C.FieldStores(w, e.schedFields().LastError) {
 		if ev.Val != nil && ir.IsNilConst(ev.Val) {
 			continue
 		}
@@ -528,6 +678,32 @@ func c04Handlers(e *Env, s *Sched) {
 				return []alt{{lits: append(append([]ir.NLit{}, lits...), e.DCS(x)...), seq: seq, ok: ok, pos: e.InstrPos(x)}}
 			}
 		case *ssa.Call:
+			if els := appendedElems(x); len(els) == 1 {
+				// the element looked up in a constant table (`h, ok := handlerByStatus[status]`):
+				// one way per entry
+				if lk, which, field, ents, okT := e.tableLookup(els[0]); okT && which == 0 && field == "" {
+					var here []ir.NLit
+					for _, l := range e.DCS(x) {
+						if l.Kind == "val" && l.Pol {
+							if lk2, w2, _, _, ok2 := e.tableLookup(l.V); ok2 && lk2 == lk && w2 == 1 {
+								continue // `ok` holds by construction in every entry's case
+							}
+						}
+						here = append(here, l)
+					}
+					var out []alt
+					for _, tc := range tableCases(lk, ents) {
+						if tc.Entry == nil {
+							continue
+						}
+						seq, ok := constsOf([]ssa.Value{tc.Value("")})
+						for _, a := range alts(x.Call.Args[0], append(append(append([]ir.NLit{}, lits...), here...), tc.Lits...), depth+1) {
+							out = append(out, alt{lits: a.lits, seq: append(append([]string{}, a.seq...), seq...), ok: a.ok && ok, pos: e.InstrPos(x)})
+						}
+					}
+					return out
+				}
+			}
 			if els := appendedElems(x); els != nil {
 				seq, ok := constsOf(els)
 				here := e.DCS(x)
@@ -567,7 +743,12 @@ func c04Handlers(e *Env, s *Sched) {
 			okExit = false
 		}
 		exitPos = a.pos
-		set := ir.Restrict(a.lits, isStatusCall, s.SS)
+		set := ir.EnumSet{}
+		for _, tl := range e.expandTableLits(a.lits) {
+			for v := range ir.Restrict(tl, isStatusCall, s.SS) {
+				set[v] = true
+			}
+		}
 		if len(set) == 0 {
 			continue // infeasible combination of branches
 		}
@@ -618,7 +799,7 @@ func c04Handlers(e *Env, s *Sched) {
 		okArg := false
 		for _, a := range c.Call.Args {
 			if lk, isL := ir.Resolve(a).(*ssa.Lookup); isL {
-				if p, okp := e.C.PathOf(lk.X); okp && p.Suffix("handlers") && ir.Resolve(lk.Index) == ir.Resolve(hl.Elem) {
+				if p, okp := e.C.PathOf(lk.X); okp && p.Suffix(e.schedFields().Handlers) && ir.Resolve(lk.Index) == ir.Resolve(hl.Elem) {
 					okArg = true
 				}
 			}
@@ -634,7 +815,7 @@ func c04Handlers(e *Env, s *Sched) {
 	r.Rule("C04.handler-no-lasterror", "VF", "no possibly non-nil lastError write after handler selection", 0)
 	var lastErrEvs []ir.StoreEvent
 	for _, lf := range loopFns {
-		for _, ev := range e.C.FieldStores(lf, "lastError") {
+		for _, ev := range e.C.FieldStores(lf, e.schedFields().LastError) {
 			if len(ev.Via) > 0 && s.inLoop(ev.Via[0]) {
 				continue
 			}
@@ -696,7 +877,21 @@ func c04PrecondFirst(e *Env, s *Sched) {
 	}
 	agentOrdered(e, "the preconditions were met", a.PassedGuard(apiEval),
 		[]string{apiSchedule, apiHistory, apiServe},
-		"runs / records / binds although the DAG's own preconditions were not (yet) found to be met", nil)
+		"runs / records / binds although the DAG's own preconditions were not (yet) found to be met",
+		// a DAG without preconditions has none to meet
+		func(lits []ir.NLit) bool {
+			for _, l := range lits {
+				if l.Kind != "cmp" {
+					continue
+				}
+				if x, isLen := lenArg(l.X); isLen && e.IsFieldRead(x, nil, "Preconditions") {
+					if k, isC := ir.ConstInt(l.Y); isC && ((l.Op == token.LEQ || l.Op == token.EQL) && k == 0 || l.Op == token.LSS && k == 1) {
+						return true
+					}
+				}
+			}
+			return false
+		})
 	// the preconditions check itself evaluates the DAG's preconditions and returns the error
 	holders := a.Holders(apiEval)
 	if len(holders) != 1 {
@@ -771,8 +966,27 @@ func agentOrdered(e *Env, guardName string, guard func([]ir.NLit) bool, apis []s
 			if g := ci.Common().StaticCallee(); a.inPkg(g) {
 				via = " (through " + shortName(g) + ")"
 			}
+			// every way of reaching the site passes the guard: judged on the dominating
+			// conditions, else on each reaching path with the agent's helpers expanded
+			// (a guard written in place, `if len(pre) > 0 { if err := eval(pre); err != nil { return } }`,
+			// is a disjunction no single dominating edge carries)
+			accepted := func(l []ir.NLit) bool { return guard(l) || (allow != nil && allow(l)) }
+			okSite := accepted(lits)
+			if !okSite {
+				okSite = true
+				for _, way := range e.waysTo(site) {
+					if accepted(way) {
+						continue
+					}
+					for _, alt := range e.expandHelperCalls(way, 0) {
+						if !accepted(alt) {
+							okSite = false
+						}
+					}
+				}
+			}
 			for _, api := range a.Does(ci.Common(), apis) {
-				r.Check(guard(lits) || (allow != nil && allow(lits)), "Agent.Run: "+apiShort(api)+" only after "+guardName, e.InstrPos(ci),
+				r.Check(okSite, "Agent.Run: "+apiShort(api)+" only after "+guardName, e.InstrPos(ci),
 					"this call"+via+" "+why, e.FactsStr("dominating conditions: ", lits))
 			}
 		}
@@ -782,31 +996,53 @@ func agentOrdered(e *Env, guardName string, guard func([]ir.NLit) bool, apis []s
 func c04HandlerStatus(e *Env, s *Sched) {
 	r := e.R
 	r.Rule("C04.handler-status", "DCS", "runHandlerNode: Success only under Execute()==nil", 2)
-	fn := e.Fn(schedRel, "(*Scheduler).runHandlerNode")
+	fn := s.handlerRunner()
 	if fn == nil {
+		r.Unknown("the handler runner", schedRel, "no function called on a handler-table node after the workers were awaited reaches Execute")
 		return
 	}
 	isDry := func(v ssa.Value) bool {
 		p, ok := e.C.PathOf(v)
-		return ok && p.Dotted() == "dry"
+		return ok && p.Dotted() == e.schedFields().Dry
 	}
-	for _, ev := range s.statusEvents(fn) {
-		k, ok := s.constOf(ev)
-		if !ok {
+	var evs []ir.StoreEvent
+	for _, g := range sortedFns(e.inlinedSet(fn, nil)) {
+		evs = append(evs, s.statusEvents(g)...)
+	}
+	type hcase struct {
+		ev   ir.StoreEvent
+		k    int64
+		lits []ir.NLit
+	}
+	var hcases []hcase
+	for _, ev := range evs {
+		// a store made inside a helper that belongs to the runner is examined there
+		if len(ev.Via) > 0 && e.inlinedSet(fn, nil)[ev.Via[0]] {
 			continue
 		}
-		lits := e.DCS(ev.Site)
+		cs, ok := s.cases(ev)
+		if !ok {
+			r.Unknown("runHandlerNode: status store of a computed value", e.InstrPos(ev.Site), "value written: "+e.C.Render(ev.Val))
+			continue
+		}
+		for _, c := range cs {
+			hcases = append(hcases, hcase{ev, c.K, c.Lits})
+		}
+	}
+	for _, hc := range hcases {
+		ev, k, lits := hc.ev, hc.k, hc.lits
 		execNil, execErr, setupErr := false, false, false
 		for _, l := range lits {
 			if l.Kind == "cmp" && ir.IsNilConst(l.Y) {
-				if calleeIs(l.X, ".Node).Execute") {
-					if l.Op == token.EQL {
-						execNil = true
-					} else {
-						execErr = true
-					}
+				isExec := func(x ssa.Value) bool { return s.errSource(x) == "exec" }
+				isSetup := func(x ssa.Value) bool { return s.errSource(x) == "setup" }
+				if l.Op == token.EQL && (isExec(l.X) || allNonNil(l.X, isExec)) {
+					execNil = true
 				}
-				if calleeIs(l.X, ".Node).setup") && l.Op == token.NEQ {
+				if l.Op == token.NEQ && allNonNil(l.X, isExec) {
+					execErr = true
+				}
+				if l.Op == token.NEQ && allNonNil(l.X, isSetup) {
 					setupErr = true
 				}
 			}
